@@ -92,7 +92,7 @@ def new_machine(prog, repo=REPO):
     _machine_cache[id(prog)] = m
     from . import model_regex
     model_regex.install(m)
-    for modname in ('model_hash', 'model_chrono', 'model_http', 'model_misc'):
+    for modname in ('model_hash', 'model_chrono', 'model_http', 'model_misc', 'model_async'):
         try:
             mod = __import__('mirse.' + modname, fromlist=['install'])
         except ImportError:
